@@ -82,6 +82,15 @@ CLAIMED.update({
    design="3/C19"),
 })
 
+CLAIMED.update({
+ "C20": dict(
+   technique="z3 equality queries over the LALR action / goto / production tables (balanced decision trees over the index), fresh in-memory generation vs parsetab.py read as data vs the tables the parser object runs with under four cache states",
+   text="The grammar's LALR tables are regenerated in memory from the working tree (ParserReflect -> Grammar -> LRGeneratedTable) and z3 is asked for an index at which (a) /repo's parsetab.py, when its signature matches, and (b) the tables and bound action functions of a parser constructed with a valid / missing / stale-signature (with deliberately different content) / older-version table file differ from it: unsat x3 per comparison over all 29 417 action entries, 1 209 gotos and 519 productions; results of four statements are compared across the cache states.",
+   note="Trusted: PLY's generator (determinism across hash seeds is C14.hash), z3. Outside: I/O faults on the cache file. The four cache states are the whole configuration space and are enumerated; the equality is the solver's.",
+   design="3/C20"),
+})
+CLAIMED["C14"]["text"] += " z3 decides that tables generated under other hash seeds equal those under seed 0 (C14.hash)."
+
 NA_REASON = {
  "C15": "concurrency and PLY process-global aliasing: thread schedules and object-identity histories are not data the available solver engines (CrossHair single-threaded per-path re-execution, z3 over tables) can quantify over; see DESIGN.md section 4",
 }
